@@ -2,6 +2,7 @@ import Drv.Browser
 import Drv.Diag
 import Drv.Slice
 import Drv.Bonf
+import Drv.DepGraph
 open Lean
 
 def dispatch (model : String) (j : Json) : Except String Json :=
@@ -10,6 +11,7 @@ def dispatch (model : String) (j : Json) : Except String Json :=
   | "diag" => Drv.Diag.run j
   | "slice" => Drv.Slice.run j
   | "bonf" => Drv.Bonf.run j
+  | "depgraph" => Drv.DepGraph.run j
   | "diagreads" => Drv.Diag.runReads j
   | _ => throw s!"bad-model {model}"
 
